@@ -7,7 +7,7 @@
     of an upgrade (see Props/C04.v for that known finding).  The theorems hold for EVERY position
     k (no bound) and every tree. *)
 From Coq Require Import List NArith Bool.
-From Rocfl Require Import Base.Bytes Model.FsOps Model.FsTree Model.Commit Model.KnownC04
+From Rocfl Require Import Base.Bytes Model.FsOps Model.FsTree Model.Commit 
   Proofs.CommitPre Proofs.CommitPhases Corr.CheckCommit.
 Import ListNotations.
 
